@@ -21,7 +21,8 @@ REQUIRED = ["prep_checked:dominion", "prep_checked:hart", "prep_rejections_check
             "cvrs_checked:hart", "sample_numbers_mapped", "phantom_cards_sampled",
             "manifest_row_labels_not_0_to_n", "manifest_row_labels_not_0_to_n_and_no_phantom_batch",
             "second_lookup_in_same_manifest", "cvr_identifiers_with_zero_padded_card_numbers",
-            "sampled_phantom_cvrs_with_another_identifier_prefix", "lookups_with_repeated_sample_numbers", "manifest_columns_not_in_canonical_order"]
+            "sampled_phantom_cvrs_with_another_identifier_prefix", "lookups_with_repeated_sample_numbers", "manifest_columns_not_in_canonical_order",
+            "manifest_counts_stored_unsigned_narrow_or_float"]
 ASSUMPTIONS = ["unique (tabulator, batch) labels per manifest", "Dominion lookup is 1-based, Hart lookup 0-based, as each "
                "vendor module documents and its test pins", "phantom CVR ids use the documented prefix 'phantom-1-'"]
 N_CASES = {"quick": 8000, "thorough": 64000}
@@ -62,6 +63,11 @@ def frames(case, vendor):
     df = _frames(case, vendor, pd, sizes)
     # the row labels of a manifest are whatever the earlier processing left: 0..n-1 from a fresh read, the original labels
     # after rows were dropped (offset) or the table was sorted by another column (permuted)
+    cd = case.get("count_dtype")
+    if cd:
+        # the count column as the file reader left it: unsigned, narrow or floating point
+        col = "Total Ballots" if vendor == "dominion" else "Number of Ballots"
+        df[col] = df[col].astype(cd)
     cm = case.get("col_mode", "canonical")
     if cm != "canonical":
         # columns are addressed by NAME: a manifest may store them in any order and carry other columns as well
@@ -104,6 +110,7 @@ def run_shard(spec, rec):
         case["index_mode"] = rng.choice(("default", "default", "offset", "permuted"))
         case["padded_ids"] = rng.random() < 0.3
         case["col_mode"] = rng.choice(("canonical", "canonical", "shuffled", "extra"))
+        case["count_dtype"] = rng.choice((None, None, "uint64", "uint8", "int32", "float64"))
         case["phantom_prefix"] = rng.choice(("phantom-1-", "phantom-1-", "ph-1-", "Phantom-2-"))
         run_case(case, rec)
 
@@ -131,6 +138,8 @@ def run_case(case, rec):
     rec.case(case, nontrivial=(0 in sizes or bound > total))
     if case.get("col_mode", "canonical") != "canonical":
         rec.count("manifest_columns_not_in_canonical_order")
+    if case.get("count_dtype"):
+        rec.count("manifest_counts_stored_unsigned_narrow_or_float")
     if case.get("index_mode", "default") != "default":
         rec.count("manifest_row_labels_not_0_to_n" + ("_and_no_phantom_batch" if bound == total else ""))
     tabcol, batchcol, sizecol = (("Tabulator Number", "Batch Number", "Total Ballots") if vendor == "dominion"
